@@ -1365,21 +1365,21 @@ fn main() {
             vec![
                 ("images_judged", 100_000),
                 ("images_inside_a_record", 80_000),
-                ("phases_judged", 800),
-                ("chain_restarts", 500),
-                ("crashes_inside_a_record", 300),
+                ("phases_judged", 350),
+                ("chain_restarts", 250),
+                ("crashes_inside_a_record", 150),
                 ("chains_with_2_crashes_completed", 20),
                 ("chains_with_3_crashes_completed", 5),
-                ("votes_granted", 500),
+                ("votes_granted", 300),
                 ("vote_obligations_checked", 20_000),
                 ("entry_obligations_checked", 100_000),
                 ("term_obligations_checked", 100_000),
-                ("conflict_truncations", 150),
-                ("proposals_accepted", 60),
-                ("elections_started", 400),
+                ("conflict_truncations", 100),
+                ("proposals_accepted", 30),
+                ("elections_started", 250),
                 ("vote_probes", 20_000),
-                ("ack_boundary_shape_checks", 2_000),
-                ("snapshots_installed", 80),
+                ("ack_boundary_shape_checks", 1_500),
+                ("snapshots_installed", 30),
             ]
         },
         exhaustive: false,
